@@ -65,7 +65,26 @@ func (Engine) Generate(property, scenario string, seed uint64, tier string) *sim
 		// where the lock file is open and the lock call has not been made, so
 		// that other processes act in between.
 		kind := []string{"acquire", "release", "kill", "exit", "journal", "spawn", "acquire-begin", "acquire-finish", "gc"}[r.Weighted([]int{30, 25, 8, 4, 12, 8, 12, 12, 12})]
-		p.Ops = append(p.Ops, simkit.Op{Actor: fmt.Sprintf("p%d", r.Intn(n)), Kind: kind})
+		op := simkit.Op{Actor: fmt.Sprintf("p%d", r.Intn(n)), Kind: kind}
+		if kind == "acquire-begin" {
+			// Which interleaving point of the acquisition it stops at (1: before
+			// the lock call; further ones exist only where the code makes more
+			// than one system call on the lock file).
+			op.N = []int64{int64(simkit.Pick(r, []int{1, 1, 2, 3, 3, 4}))}
+		}
+		p.Ops = append(p.Ops, op)
+	}
+	if r.Chance(1, 4) {
+		// A contender that stops between two of its system calls after having
+		// found the lock taken, the holder letting go just then, and a third
+		// process trying afterwards.
+		a, b, c := "p0", "p1", fmt.Sprintf("p%d", n-1)
+		p.Ops = append(p.Ops, simkit.Op{Actor: a, Kind: "acquire"},
+			simkit.Op{Actor: b, Kind: "acquire-begin", N: []int64{int64(simkit.Pick(r, []int{2, 3, 3, 4}))}},
+			simkit.Op{Actor: a, Kind: simkit.Pick(r, []string{"release", "release", "kill", "exit"})},
+			simkit.Op{Actor: b, Kind: "acquire-finish"},
+			simkit.Op{Actor: c, Kind: "acquire"},
+			simkit.Op{Actor: b, Kind: "journal"}, simkit.Op{Actor: c, Kind: "journal"})
 	}
 	return p
 }
@@ -176,16 +195,37 @@ func (Engine) Execute(t *testing.T, plan *simkit.Plan) *simkit.Result {
 				if p.holds {
 					continue
 				}
-				reply, err := p.send("acquire-begin")
+				stopAt := op.Int(0)
+				if stopAt < 1 {
+					stopAt = 1
+				}
+				h := holder()
+				reply, err := p.send(fmt.Sprintf("acquire-begin %d", stopAt))
 				if err != nil {
 					s.Violate("C28", "helper-died", "acquire", "%s died during acquire: %v", op.Actor, err)
 					return
 				}
-				s.Logf(op.Actor, "acquire-begin -> %s", strings.Fields(reply)[0])
-				if reply == "paused" {
+				s.Logf(op.Actor, "acquire-begin %d (holder %q) -> %s", stopAt, h, strings.Fields(reply)[0])
+				switch {
+				case reply == "paused":
 					p.pending = true
 					s.Count("probe.acquire_split", 1)
-				} else if reply != "already" {
+					s.Count(fmt.Sprintf("probe.acquire_split_at_%d", stopAt), 1)
+				case strings.HasPrefix(reply, "acquired"):
+					// (The acquisition has fewer interleaving points than asked
+					// for: it ran to its end.)
+					if h != "" {
+						s.Violate("C28", "two-holders", "acquire", "%s acquired the daemon lock while %s holds it", op.Actor, h)
+					}
+					p.holds = true
+					s.Count("probe.acquired", 1)
+				case strings.HasPrefix(reply, "denied"):
+					if h == "" {
+						s.Violate("C28", "lock-not-available", "acquire", "%s was denied the daemon lock although no live process holds it (after release or death of the holder): %s", op.Actor, reply)
+					}
+					s.Count("probe.denied", 1)
+				case reply == "already":
+				default:
 					s.Violate("C28", "helper-protocol", "acquire-begin", "unexpected reply %q", reply)
 				}
 			case "acquire", "acquire-finish":
